@@ -101,4 +101,184 @@ theorem wellNested_coalesce (s : Stream) (h : WellNested s) : WellNested (coales
   unfold WellNested coalesce at *
   rw [balance_coalesceGo]; exact h
 
+/-! ### seams: `_coalesce` joins TEXT with TEXT only
+
+Whatever stands between two pieces of character data — an END_CDATA directly
+followed by a START_CDATA in particular — stays where it is, and the text on
+its two sides is never joined.  (A CDATA section is the only place where the
+serializer writes text verbatim, so joining `a]]` and `>b` across the seam of
+`<![CDATA[a]]]]><![CDATA[>b]]>` would make the output ill-formed.) -/
+
+theorem coalesceGo_append_nontext (e : Event) (he : isText e = false) (b : Stream) :
+    ∀ (a : Stream) (buf : Option Str),
+      coalesceGo buf (a ++ e :: b) = coalesceGo buf a ++ e :: coalesce b := by
+  intro a
+  induction a with
+  | nil =>
+    intro buf
+    cases buf <;> cases e <;> simp_all [coalesceGo, coalesce, isText]
+  | cons x xs ih =>
+    intro buf
+    cases buf with
+    | none =>
+      cases x with
+      | text s f => simp only [List.cons_append, coalesceGo]; exact ih _
+      | _ => simp only [List.cons_append, coalesceGo, ih]
+    | some t =>
+      cases x with
+      | text s f => simp only [List.cons_append, coalesceGo]; exact ih _
+      | _ => simp only [List.cons_append, coalesceGo, ih]
+
+/-- an event that is not TEXT splits the work of `_coalesce` in two -/
+theorem coalesce_append_nontext (a b : Stream) (e : Event) (he : isText e = false) :
+    coalesce (a ++ e :: b) = coalesce a ++ e :: coalesce b :=
+  coalesceGo_append_nontext e he b a none
+
+/-- two CDATA sections that directly follow each other stay two sections -/
+theorem coalesce_cdata_seam (a b : Stream) :
+    coalesce (a ++ .endCdata :: .startCdata :: b) = coalesce a ++ .endCdata :: .startCdata :: coalesce b := by
+  rw [coalesce_append_nontext a _ .endCdata rfl]
+  have := coalesce_append_nontext [] b .startCdata rfl
+  simp only [List.nil_append] at this
+  rw [this]; simp [coalesce, coalesceGo]
+
+/-- the events other than TEXT, in order -/
+def nonText (s : Stream) : Stream := s.filter fun e => !isText e
+
+theorem nonText_text (s : Str) (f : Bool) (es : Stream) : nonText (.text s f :: es) = nonText es := rfl
+
+theorem nonText_cons (e : Event) (he : isText e = false) (es : Stream) : nonText (e :: es) = e :: nonText es := by
+  simp [nonText, List.filter_cons, he]
+
+theorem nonText_coalesceGo : ∀ (s : Stream) (buf : Option Str),
+    nonText (coalesceGo buf s) = nonText s := by
+  intro s
+  induction s with
+  | nil => intro buf; cases buf <;> rfl
+  | cons e es ih =>
+    intro buf
+    cases buf with
+    | none =>
+      cases e with
+      | text s f => simp only [coalesceGo, nonText_text]; exact ih _
+      | _ => simp only [coalesceGo]; rw [nonText_cons _ rfl, nonText_cons _ rfl, ih]
+    | some t =>
+      cases e with
+      | text s f => simp only [coalesceGo, nonText_text]; exact ih _
+      | _ => simp only [coalesceGo, nonText_text]; rw [nonText_cons _ rfl, nonText_cons _ rfl, ih]
+
+/-- `_coalesce` neither drops, adds, moves nor merges an event that is not TEXT -/
+theorem nonText_coalesce (s : Stream) : nonText (coalesce s) = nonText s := nonText_coalesceGo s none
+
+/-! ### `ET(element)` -/
+
+theorem balance_etText (o : Option Str) (st : List QName) (rest : Stream) :
+    balance st (etText o ++ rest) = balance st rest := by
+  cases o with
+  | none => rfl
+  | some t => cases t <;> simp [etText, balance]
+
+mutual
+  theorem balance_etStream : ∀ (t : ETree) (st : List QName) (rest : Stream),
+      balance st (etStream t ++ rest) = balance st rest
+    | .node tag attrs text kids tail, st, rest => by
+        simp only [etStream, List.cons_append, List.append_assoc, balance]
+        rw [balance_etText, balance_etKids kids (qnameOf tag :: st)]
+        simp only [balance, if_true]
+        exact balance_etText tail st rest
+  theorem balance_etKids : ∀ (ks : List ETree) (st : List QName) (rest : Stream),
+      balance st (etKids ks ++ rest) = balance st rest
+    | [], st, rest => by simp [etKids]
+    | k :: ks, st, rest => by
+        simp only [etKids, List.append_assoc]
+        rw [balance_etStream k st, balance_etKids ks st rest]
+end
+
+/-- the stream `ET` makes of any ElementTree element is well nested -/
+theorem wellNested_etStream (t : ETree) : WellNested (etStream t) := by
+  unfold WellNested
+  have := balance_etStream t [] []
+  simpa [balance] using this
+
+def isNsEvent : Event → Bool
+  | .startNs _ _ => true
+  | .endNs _ => true
+  | _ => false
+
+theorem noNs_etText (o : Option Str) : (etText o).all (fun e => !isNsEvent e) = true := by
+  cases o with
+  | none => rfl
+  | some t => cases t <;> simp [etText, isNsEvent]
+
+mutual
+  theorem noNs_etStream : ∀ (t : ETree), (etStream t).all (fun e => !isNsEvent e) = true
+    | .node tag attrs text kids tail => by
+        simp only [etStream, List.all_cons, List.all_append, noNs_etText, noNs_etKids kids]
+        rfl
+  theorem noNs_etKids : ∀ (ks : List ETree), (etKids ks).all (fun e => !isNsEvent e) = true
+    | [] => rfl
+    | k :: ks => by
+        simp only [etKids, List.all_append, noNs_etStream k, noNs_etKids ks]
+        rfl
+end
+
+/-! ### the shape of what `XMLParser` delivers, whatever expat calls -/
+
+def plainText : Event → Bool
+  | .text _ true => false
+  | _ => true
+
+theorem handleCb_plain (entity : Str → Option Char) (c : Cb) (es : List Event)
+    (h : handleCb entity c = .events es) : es.all plainText = true := by
+  cases c with
+  | other t =>
+    cases t with
+    | nil => simp [handleCb] at h; subst h; rfl
+    | cons ch rest =>
+      simp only [handleCb] at h
+      split at h
+      · split at h
+        · cases h; rfl
+        · cases h
+      · cases h; rfl
+  | _ => simp only [handleCb] at h; cases h; rfl
+
+theorem runCbs_plain (entity : Str → Option Char) : ∀ (cbs : List Cb),
+    (runCbs entity cbs).1.all plainText = true := by
+  intro cbs
+  induction cbs with
+  | nil => rfl
+  | cons c cs ih =>
+    simp only [runCbs]
+    cases hc : handleCb entity c with
+    | events es =>
+      simp only [List.all_append, Bool.and_eq_true]
+      exact ⟨handleCb_plain entity c es hc, ih⟩
+    | undefinedEntity => rfl
+
+theorem coalesceGo_plain : ∀ (s : Stream) (buf : Option Str), s.all plainText = true →
+    (coalesceGo buf s).all plainText = true := by
+  intro s
+  induction s with
+  | nil => intro buf _; cases buf <;> rfl
+  | cons e es ih =>
+    intro buf h
+    simp only [List.all_cons, Bool.and_eq_true] at h
+    cases buf with
+    | none =>
+      cases e with
+      | text s f => simp only [coalesceGo]; exact ih _ h.2
+      | _ => simp only [coalesceGo, List.all_cons, Bool.and_eq_true]; exact ⟨rfl, ih _ h.2⟩
+    | some t =>
+      cases e with
+      | text s f => simp only [coalesceGo]; exact ih _ h.2
+      | _ => simp only [coalesceGo, List.all_cons, Bool.and_eq_true]; exact ⟨rfl, rfl, ih _ h.2⟩
+
+/-- whatever expat calls, the stream XMLParser delivers has no two TEXT events in a row, no `Markup` text, and
+    the events other than TEXT are those the callbacks enqueued, in order -/
+theorem parseCbs_shape (entity : Str → Option Char) (cbs : List Cb) :
+    NoAdjText (parseCbs entity cbs).1 ∧ (parseCbs entity cbs).1.all plainText = true ∧
+    nonText (parseCbs entity cbs).1 = nonText (runCbs entity cbs).1 := by
+  refine ⟨coalesce_noAdj _, coalesceGo_plain _ none (runCbs_plain entity cbs), nonText_coalesce _⟩
+
 end Genshi.Xml
